@@ -7,9 +7,9 @@ CLAIMS["C02"] = (
     "3/C02",
 )
 CLAIMS["C03"] = (
-    "Lean 4 proof by loop invariant (point/collective Bellman inequalities against all admissible starts under delayed pruning and length-limit pruning) + top-k lemma for the penalised saving + exact model/code correspondence on integer table savings",
-    "Theorems capa_optimal / capa_prefix / capa_reported_positive (any penalised-saving functions satisfying the pruning inequality), penalise_general_best (best over all non-empty component selections), penalise_{dense,equal,general}_H (the pruning inequality follows from column-wise sub-additivity and beta >= 0) in Skc/Props/C03.lean: the model of run_base_capa + get_anomalies returns an admissible anomaly set of maximal total penalised saving, prefix scores are prefix optima, >= 0 and non-decreasing. Unbounded in n, p.",
-    "hypotheses forced by the proof: savings >= 0, alpha >= 0, betas >= 0 and not in (0,1e-8); modelled not verified: Python glue (check_data, formatting, sorting of the two anomaly lists), built-in float savings (compared under tolerance), scipy chi2 in the intermediate family. The glue theorem composing penalise with runCapa is stated per branch, the composition itself is what the driver executes and the correspondence checks.",
+    "Lean 4 proof by loop invariant (point/collective Bellman inequalities against all admissible starts under delayed pruning and length-limit pruning) + top-k lemma and per-branch analysis of the penalised saving + exact model/code correspondence on integer table savings",
+    "Theorems capa_optimal_wrt_specification / capa_prefix_wrt_specification (Skc/Props/C03.lean): for p >= 1 non-negative column savings that are sub-additive under splitting, alpha >= 0, betas >= 0 (not in (0,1e-8)), 2 <= m <= M, pruning delay >= m-1, the model of run_base_capa driven by the code's three-branch penalise_savings returns an admissible anomaly set whose total saving UNDER THE SPECIFICATION (best non-empty component subset, alpha once, betas of that many components) equals the final score and is maximal; every prefix score is the prefix optimum, >= 0 and non-decreasing. Also capa_optimal / capa_prefix / capa_reported_positive for abstract penalised savings, penalise_general_best, penalise_*_H. Unbounded in n and p.",
+    "hypotheses forced by the proof and recorded: savings >= 0, alpha >= 0, betas >= 0 and not in (0,1e-8) (the code approximates those by 0); modelled not verified: Python glue (check_data, formatting, merging and sorting of the two anomaly lists, ignore_point_anomalies filter), built-in float savings (compared under tolerance), scipy chi2 in the intermediate family; the correspondence is differential testing on tables incl. driver-mined pruning-boundary inputs.",
     "3/C03",
 )
 CLAIMS["C07"] = (
